@@ -352,6 +352,10 @@ fn run_loop(chain: &[AbsFont], def: &AbsDef, variant: u64, ev: &mut Vec<Value>, 
                     }
                     gen += 1;
                     cur = new_bytes;
+                    // patches fetched for the previous generation but not applied are not kept: this harness
+                    // synthesises a URI's content per generation, and a left-over table keyed patch would
+                    // re-install the tables that are already there
+                    status.retain(|_, s| !matches!(s, UriStatus::Pending(_)));
                     ev.push(json!({"op": "round", "res": "table", "uris": juris, "applied": applied_now(&status), "ign": {"ift": [], "iftx": []}}));
                 } else {
                     let ign = json!({"ift": ign_bits(&new_bytes, b"IFT ", &built.ift), "iftx": ign_bits(&new_bytes, b"IFTX", &built.iftx)});
